@@ -7,8 +7,7 @@
    The property over all schedules (election safety of the protocol, incl. crash/restart and
    membership change) is proved on the abstract protocol in coq/RaftAbs by the raftabs group.
 
-   >>> PLACE FOR THE ABSTRACT-PROTOCOL THEOREMS (coq/RaftAbs): election safety, learners never
-   >>> lead nor vote. To be wired here by the coordinator. <<< *)
+   The abstract-protocol theorems (coq/RaftAbs) are stated at the end of this file. *)
 From ZV Require Import Raft.Consts Raft.Model Raft.Proofs.
 From Coq Require Import List NArith.
 Import ListNotations.
@@ -55,6 +54,84 @@ Theorem C01_grant_needs_up_to_date : forall l vote lead from pv mterm term utd,
   vote_decision l vote lead from pv mterm term utd = Some true -> utd = true /\ l = false.
 Proof. exact grant_needs_up_to_date. Qed.
 Print Assumptions C01_grant_needs_up_to_date.
+
+
+(* ====================================================================================== *)
+(* The property over all schedules, on the abstract protocol of coq/RaftAbs (Model.v: per-node term /
+   vote / role / log / commit / configuration, the network as grant, ack and campaign records, crash and
+   restart from the persisted part, snapshots as compacted prefixes). "_fixed": every node keeps its
+   configuration (any voter list, any learner list) — no hypothesis. "_reconf_partial": arbitrary
+   configuration changes under the explicit hypothesis Overlap (any two voter lists a majority was
+   counted over have intersecting majorities). The tie to the Go code: every check run replays traces of
+   the real cluster through the extracted acceptor (RaftAbs/Acceptor.v, proved sound in
+   AcceptorSound.v): an accepted trace is a trace of this protocol. *)
+From ZV Require RaftAbs.Theorems.
+Module AM := ZV.RaftAbs.Model. Module AS := ZV.RaftAbs.Safety. Module AL := ZV.RaftAbs.ListFacts.
+Module AI := ZV.RaftAbs.Inv. Module AA := ZV.RaftAbs.Acceptor. Module AT := ZV.RaftAbs.Theorems.
+
+Theorem C01_election_safety_fixed : forall (cf : AM.config) (log0 : list AM.entry), AM.init_ok cf log0 ->
+  forall s, AM.steps_fixed (AM.init cf log0) s ->
+  forall i j : nat, AM.rl (AM.nodes s i) = AM.Leader -> AM.rl (AM.nodes s j) = AM.Leader ->
+    AM.cur (AM.nodes s i) = AM.cur (AM.nodes s j) -> i = j.
+Proof. exact AT.election_safety_fixed. Qed.
+Print Assumptions C01_election_safety_fixed.
+
+(* history form: the record of won elections is functional in the term *)
+Theorem C01_election_safety_history_fixed : forall (cf : AM.config) (log0 : list AM.entry), AM.init_ok cf log0 ->
+  forall s, AM.steps_fixed (AM.init cf log0) s ->
+  forall (t c : nat) el q (c' : nat) el' q',
+    In (t, c, el, q) (AM.leaders s) -> In (t, c', el', q') (AM.leaders s) -> c = c'.
+Proof. exact AT.election_safety_history_fixed. Qed.
+Print Assumptions C01_election_safety_history_fixed.
+
+Theorem C01_learners_never_lead_fixed : forall (cf : AM.config) (log0 : list AM.entry), AM.init_ok cf log0 ->
+  forall s, AM.steps_fixed (AM.init cf log0) s ->
+  forall j : nat, AM.rl (AM.nodes s j) <> AM.Follower -> In j (AM.voters cf) /\ ~ In j (AM.learners cf).
+Proof. exact AT.learners_never_lead_fixed. Qed.
+Print Assumptions C01_learners_never_lead_fixed.
+
+Theorem C01_learners_never_vote_fixed : forall (cf : AM.config) (log0 : list AM.entry), AM.init_ok cf log0 ->
+  forall s, AM.steps_fixed (AM.init cf log0) s ->
+  forall j t c : nat, In (j, t, c) (AM.grants s) -> ~ In j (AM.learners cf).
+Proof. exact AT.learners_never_vote_fixed. Qed.
+Print Assumptions C01_learners_never_vote_fixed.
+
+Theorem C01_one_vote_per_term_fixed : forall (cf : AM.config) (log0 : list AM.entry), AM.init_ok cf log0 ->
+  forall s, AM.steps_fixed (AM.init cf log0) s ->
+  forall j t c c' : nat, In (j, t, c) (AM.grants s) -> In (j, t, c') (AM.grants s) -> c = c'.
+Proof. exact AT.one_vote_per_term_fixed. Qed.
+Print Assumptions C01_one_vote_per_term_fixed.
+
+(* with membership changes: under Overlap (what is not proved: that the fork's way of applying
+   configuration changes establishes Overlap for non-consecutive configurations; the acceptor
+   evaluates the computable test on every trace) *)
+Theorem C01_election_safety_reconf_partial : forall (cf : AM.config) (log0 : list AM.entry), AM.init_ok cf log0 ->
+  forall s, AM.reachable cf log0 s -> AI.Overlap s ->
+  forall i j : nat, AM.rl (AM.nodes s i) = AM.Leader -> AM.rl (AM.nodes s j) = AM.Leader ->
+    AM.cur (AM.nodes s i) = AM.cur (AM.nodes s j) -> i = j.
+Proof. exact AT.election_safety_reconf_partial. Qed.
+Print Assumptions C01_election_safety_reconf_partial.
+
+
+(* what remains unproved: election safety under arbitrary configuration changes WITHOUT the Overlap
+   hypothesis (i.e. that applying committed single-step changes in log order, as the fork does,
+   keeps every pair of voter lists a majority was counted over intersecting) *)
+Definition C01_full : Prop :=
+  forall (cf : AM.config) (log0 : list AM.entry), AM.init_ok cf log0 ->
+  forall s, AM.reachable cf log0 s ->
+  forall i j : nat, AM.rl (AM.nodes s i) = AM.Leader -> AM.rl (AM.nodes s j) = AM.Leader ->
+    AM.cur (AM.nodes s i) = AM.cur (AM.nodes s j) -> i = j.
+
+(* a single-step change keeps the old and the new voter list overlapping (computable test of the acceptor) *)
+Theorem C01_single_step_add_overlap : forall (V : list nat) (x : nat), ~ In x V ->
+  AA.overlap2b V (x :: V) = true /\ AA.overlap2b (x :: V) V = true.
+Proof. exact ZV.RaftAbs.Reconf.single_step_add_overlap. Qed.
+Print Assumptions C01_single_step_add_overlap.
+
+Theorem C01_single_step_remove_overlap : forall (V : list nat) (x : nat), NoDup V -> In x V ->
+  AA.overlap2b (ZV.RaftAbs.Reconf.remove_nat x V) V = true.
+Proof. exact ZV.RaftAbs.Reconf.single_step_remove_overlap. Qed.
+Print Assumptions C01_single_step_remove_overlap.
 
 (* ---------- non-vacuity ---------- *)
 Example C01_ex_quorum : quorum 1 = 1 /\ quorum 2 = 2 /\ quorum 3 = 2 /\ quorum 4 = 3 /\ quorum 5 = 3.
